@@ -247,7 +247,7 @@ func c05NilErr(c *Ctx, r *Report) {
 				continue
 			}
 			if errv == nil {
-				r.check("C05.NILERR", key, call.Pos(), false, "the coercion error is discarded")
+				r.flag("C05.NILERR", key, call.Pos(), "the coercion error is discarded")
 				continue
 			}
 			if val == nil {
